@@ -18,6 +18,7 @@ from ..model import (AnalysisError, FunctionInfo, dotted, norm_text,
                      const_value, call_args)
 
 GIVEN = 'GIVEN'          # a bound that is configured (not None)
+TENSOR = 'TENSOR'        # a single tensor (not a list / tuple)
 UNK = object()
 
 
@@ -46,11 +47,47 @@ def _join(*vs):
   return V(UNK, s)
 
 
+def _meet(a, b):
+  """control-flow merge for a MUST-depend analysis: a dependence survives
+  only if it holds on both paths."""
+  if isinstance(a, tuple) and isinstance(b, tuple) and len(a) == len(b):
+    return tuple(_meet(x, y) for x, y in zip(a, b))
+  if not isinstance(a, V):
+    a = _join(a)
+  if not isinstance(b, V):
+    b = _join(b)
+  same = a.conc is b.conc or (
+      a.conc is not UNK and b.conc is not UNK and
+      not isinstance(a.conc, list) and not isinstance(b.conc, list) and
+      type(a.conc) is type(b.conc) and a.conc == b.conc)
+  return V(a.conc if same else UNK, a.infl & b.infl)
+
+
+def _meet_env(e1, e2):
+  out = {}
+  for k in set(e1) | set(e2):
+    if k in e1 and k in e2:
+      out[k] = e1[k] if e1[k] is e2[k] else _meet(e1[k], e2[k])
+    else:
+      # defined on one path only: no dependence can be relied on
+      v = e1.get(k, e2.get(k))
+      out[k] = V(UNK, ()) if not isinstance(v, tuple) else tuple(
+          V(UNK, ()) for _ in v)
+  return out
+
+
+def _only_raises(stmts):
+  return bool(stmts) and all(isinstance(s, ast.Raise) or (
+      isinstance(s, ast.Expr) and isinstance(s.value, ast.Constant))
+                             for s in stmts)
+
+
 class Interp(object):
 
   def __init__(self, prog, enum_names=('NONE', 'BOUND', 'CLAMPED'),
-               max_depth=6):
+               max_depth=6, strict=True):
     self.prog = prog
+    self.strict = strict
     self.enum_names = set(enum_names)
     self.max_depth = max_depth
     self.trace = []
@@ -89,6 +126,22 @@ class Interp(object):
     if isinstance(e, (ast.Tuple, ast.List)):
       return tuple(self.val(fn, x, env) for x in e.elts)
     if isinstance(e, ast.Call):
+      f = dotted(e.func)
+      if f == 'isinstance' and len(e.args) == 2:
+        v = self.val(fn, e.args[0], env)
+        kinds = [dotted(x) for x in (e.args[1].elts if isinstance(
+            e.args[1], ast.Tuple) else [e.args[1]])]
+        if isinstance(v, V) and isinstance(v.conc, list):
+          return V('list' in kinds)
+        if isinstance(v, V) and v.conc is TENSOR:
+          return V(False if set(kinds) <= {'list', 'tuple', 'dict'} else UNK)
+        return V(UNK)
+      if f == 'len' and len(e.args) == 1:
+        v = self.val(fn, e.args[0], env)
+        if isinstance(v, V) and isinstance(v.conc, list):
+          return V(len(v.conc))
+        if isinstance(v, tuple):
+          return V(len(v))
       return self.call(fn, e, env)
     if isinstance(e, (ast.Compare, ast.BoolOp)):
       t = self.truth(fn, e, env)
@@ -176,7 +229,7 @@ class Interp(object):
         return V(None)
       out = rets[0]
       for r in rets[1:]:
-        out = self._merge(out, r)
+        out = _meet(out, r)
       return out
     finally:
       self._depth -= 1
@@ -188,6 +241,9 @@ class Interp(object):
 
   def _assign(self, target, value, env):
     if isinstance(target, (ast.Tuple, ast.List)):
+      if isinstance(value, V) and isinstance(value.conc, list) and len(
+          value.conc) == len(target.elts):
+        value = tuple(value.conc)
       if isinstance(value, tuple) and len(value) == len(target.elts):
         for t, v in zip(target.elts, value):
           self._assign(t, v, env)
@@ -227,9 +283,30 @@ class Interp(object):
       if isinstance(st, ast.If):
         t = self.truth(fn, st.test, env)
         if t is None:
-          raise AnalysisError('%s: test `%s` is not decided by the enumerated '
-                              'configuration' % (fn.loc(st),
-                                                 norm_text(st.test)[:60]))
+          if self.strict:
+            raise AnalysisError('%s: test `%s` is not decided by the '
+                                'enumerated configuration' % (
+                                    fn.loc(st), norm_text(st.test)[:60]))
+          # accepted inputs only: an undecided validation raise is not taken
+          if _only_raises(st.body) and not st.orelse:
+            continue
+          if _only_raises(st.orelse):
+            if self._block(fn, st.body, env, rets):
+              return True
+            continue
+          if _only_raises(st.body):
+            if self._block(fn, st.orelse, env, rets):
+              return True
+            continue
+          e1, e2 = dict(env), dict(env)
+          r1 = self._block(fn, st.body, e1, rets)
+          r2 = self._block(fn, st.orelse, e2, rets)
+          if r1 and r2:
+            return True
+          merged = e2 if r1 else (e1 if r2 else _meet_env(e1, e2))
+          env.clear()
+          env.update(merged)
+          continue
         if self._block(fn, st.body if t else st.orelse, env, rets):
           return True
         continue
@@ -237,10 +314,15 @@ class Interp(object):
         if isinstance(st, ast.For):
           it = self.val(fn, st.iter, env)
           self._assign(st.target, _join(it), env)
+        before = dict(env)
         for _ in range(3):       # influence sets only grow: small fixpoint
           sub = []
           self._block(fn, st.body, env, sub)
           rets.extend(sub)
+        if not self.strict:
+          merged = _meet_env(before, env)   # the body may not run at all
+          env.clear()
+          env.update(merged)
         continue
       if isinstance(st, (ast.FunctionDef, ast.Pass, ast.Delete, ast.Assert,
                          ast.Import, ast.ImportFrom)):
